@@ -101,7 +101,9 @@ class Gen:
         """a Java string literal; the escapes sit anywhere, also at the very start and the very end"""
         body = self.word()
         extra = self.r.choice(["", " x", "\\\"q\\\"", "\\\\", " in ", "a,b", "(", "WHERE x SELECT",
-                               "\\u003cb\\u003e", "\\u0026amp;", "\\\\u003c", "<&>", "\\u2028", "\\t\\n", "\\101"])
+                               "\\u003cb\\u003e", "\\u0026amp;", "\\\\u003c", "<&>", "\\u2028", "\\t\\n", "\\101",
+                               # text that looks like a comment (a URL, a glob, comment delimiters) is text all the same
+                               "http://x/y", "src/**/*.java", "/* c */", "// c", "/*", "*/ //"])
         uniq = ""
         if self.o.unique:
             self.counter += 1
@@ -190,6 +192,19 @@ class Gen:
             self.keep.append(e)
         return self.seps[k]
 
+    def call_dot(self, e):
+        """the text between a receiver and the method name: a dot, now and then set off by blanks or moved to the next
+        line (a fluent layout); decided once per node"""
+        k = ("dot", id(e))
+        if k not in self.seps:
+            if self.r.random() < 0.12:
+                wrap = (self.o.eol + "            ." if self.o.eol == "\n" else " .")
+                self.seps[k] = self.r.choice([" . ", " .", ". ", wrap, "  .  "])
+            else:
+                self.seps[k] = "."
+            self.keep.append(e)
+        return self.seps[k]
+
     def expr_text(self, e):
         t = e[0]
         if t in ("lit", "id"):
@@ -201,7 +216,7 @@ class Gen:
             s = self.expr_text(e[2]) + sl + e[1] + sr + self.expr_text(e[3])
             return "(" + s + ")" if e[4] else s
         if t == "call":
-            recv = (e[1] + ".") if e[1] else ""
+            recv = (e[1] + self.call_dot(e)) if e[1] else ""
             return recv + e[2] + "(" + ", ".join(self.expr_text(a) for a in e[3]) + ")"
         if t == "new":
             return "new " + e[1] + "(" + ", ".join(self.expr_text(a) for a in e[2]) + ")"
@@ -233,7 +248,7 @@ class Gen:
         elif t == "call":
             s = w.pos
             if e[1]:
-                w.w(e[1] + ".")
+                w.w(e[1] + self.call_dot(e))
             w.w(e[2] + "(")
             argtexts = []
             for i, a in enumerate(e[3]):
@@ -560,6 +575,18 @@ class Gen:
         self.counter += 1
         return self.counter
 
+    def join_mods(self, mods, ind):
+        """modifiers and annotations of a declaration header, mostly one blank apart; now and then a tab, a line break
+        (with or without indentation) or several blanks between two of them and before what follows"""
+        r = self.r
+        if not mods:
+            return ""
+        out = []
+        for m in mods:
+            out.append(m)
+            out.append(" " if r.random() < 0.8 else r.choice(["\t", self.o.eol, self.o.eol + ind, self.o.eol + "\t", "  ", " \t "]))
+        return "".join(out)
+
     def emit_method(self, w, ind, cls):
         r = self.r
         tags = None
@@ -584,7 +611,9 @@ class Gen:
             # legal but unconventional: keywords before / between the annotations
             r.shuffle(mods)
             anns = [m for m in mods if m.startswith("@")]
-            w.w(" ".join(mods) + " ")
+            w.w(self.join_mods(mods, ind))
+        elif mods and r.random() < 0.5:
+            w.w(self.join_mods(mods, ind))
         elif mods:
             sep = r.choice([" ", self.o.eol + ind]) if anns else " "
             w.w(sep.join(mods[:len(anns)]) + (sep if anns else "") + " ".join(mods[len(anns):]) + (" " if mods[len(anns):] else ""))
@@ -621,7 +650,7 @@ class Gen:
         rich = r.random() < 0.2
         if rich:
             ty = r.choice([t for t in self.RICH_TYPES if t != "var"])
-        w.w(" ".join(mods) + (" " if mods else "") + ty + " " + nm)
+        w.w((self.join_mods(mods, ind) if r.random() < 0.5 else " ".join(mods) + (" " if mods else "")) + ty + " " + nm)
         val = ""
         if not rich and r.random() < 0.7:
             w.w(" = ")
@@ -657,7 +686,7 @@ class Gen:
             mods.append("static")
         if anns and len(mods) > len(anns) and r.random() < 0.35:
             r.shuffle(mods)
-        w.w(" ".join(mods) + (" " if mods else "") + "class " + name)
+        w.w((self.join_mods(mods, ind) if r.random() < 0.5 else " ".join(mods) + (" " if mods else "")) + "class " + name)
         sup = None
         if r.random() < 0.4:
             sup = r.choice(["Object", "Thread", "Exception", "java.util.ArrayList"])
